@@ -456,6 +456,16 @@ def r15_13(ctx: Ctx) -> None:
                   f"the `except {norm(h.type) if h.type else ''}` handler of __exit__ does not re-raise when `{ex.params[1]} is None`: a `with` block whose session could not be "
                   "completed (a source failed midway) ends without any error and the caller takes the archive for written", construct="__exit__ swallows the close error")
     ctx.floor("R15.13", len(hs) + 1, 1, "snapshot / __exit__ obligations")
+    # who may poison the session: only the handlers around Worker.archive (write, _writef), which know whether anything was consumed.  An exception
+    # that leaves a `with` block - a missing source, a rejected name - says nothing about the packed stream; poisoning there loses every member
+    # written before it
+    cls = ctx.prog.cls("SevenZipFile", "py7zr")
+    for name, m in sorted(cls.methods.items()):
+        for n in [n for n in walk(m.node) if isinstance(n, ast.Assign) and any(norm(t_) == "self._broken" for t_ in n.targets)]:
+            harmless = isinstance(n.value, ast.Constant) and n.value.value is False
+            ctx.check(harmless or name in ("write", "_writef"), "R15.13", m, n, "the session is poisoned only where a source was being archived",
+                      f"`{norm(n)}` in {name}: the flag that makes close() refuse the header is set outside the handlers around Worker.archive: a harmless failed call (a missing source, "
+                      "a rejected name) whose exception leaves the `with` block makes close() drop every member written before it", construct=f"{name} poisons the session")
 
 
 def r15_10(ctx: Ctx, rule: str = "R15.10") -> None:
@@ -574,7 +584,12 @@ def r15_15(ctx: Ctx, rule: str = "R15.15") -> None:
             if isinstance(n.target, ast.Subscript) and isinstance(n.target.value, ast.Attribute) and in_chain:
                 staged.add(n.target.value.attr)
             elif isinstance(n.target, ast.Attribute) and not in_chain and isinstance(n.value, ast.Call) and dotted(n.value.func) == "len":
-                direct.add(n.target.attr)
+                # a counter of SOURCE bytes is raised before the block goes through the chain (what is counted behind the chain loop is packed output)
+                ccfg = cfg_of(comp.node)
+                chain_loops = [l for l in walk(comp.node) if isinstance(l, ast.For) and "self.chain" in norm(l.iter)]
+                if chain_loops and all(ccfg.reaches(q.node_for(comp, n), ccfg.by_ast[l]) and not any(
+                        ccfg.reaches(ccfg.by_ast[l], q.node_for(comp, n), avoid=[ccfg.by_ast[w_] for w_ in walk(comp.node) if isinstance(w_, ast.While)]) for _ in [0]) for l in chain_loops):
+                    direct.add(n.target.attr)
     rets = [r for r in walk(f.node) if isinstance(r, ast.Return) and r.value is not None]
     ctx.floor(rule, len(rets), 1, "returns of SevenZipCompressor.consumed")
     for r in rets:
